@@ -187,7 +187,9 @@ func warm(x tensor.Tensor) {
 	_, _ = x.Reshape([]int{x.NElems()})
 	_, _ = x.Slice(nil)
 	_, _ = x.UnSqueeze(0)
+	_, _ = x.UnSqueeze(len(s))
 	_, _ = x.Broadcast(s)
+	_, _ = x.Broadcast(append([]int{2}, s...))
 	_, _ = x.Add(x)
 	_ = x.Scale(1)
 	if len(s) >= 1 {
@@ -217,6 +219,10 @@ func warm(x tensor.Tensor) {
 	idx := make([]int, len(s))
 	_, _ = x.At(idx...)
 }
+
+// Warm uses x the way any tensor may be used (every reducer, accessor and reshaping method,
+// products and concatenations with itself); results are dropped.
+func Warm(x tensor.Tensor) { warm(x) }
 
 func junk(n int) []float64 {
 	v := make([]float64, n)
